@@ -1,7 +1,7 @@
 (* Soundness of proof verification: an accepted proof describes the real tree
    with some subtrees replaced by their hashes, or exhibits a collision of H. *)
 From Verif Require Import Lib.Base Mkvs.Trie Mkvs.BitsProofs Mkvs.AlistProofs Mkvs.TrieProofs
-  Mkvs.HashProofs MkvsProof.Model.
+  Mkvs.HashProofs Gen.ProofConsts MkvsProof.Model.
 
 (* the fields of a decoded entry fit the fixed-width wire fields they were read
    from: LabelBitLength is a uint16 (node.Depth), the key length is read from a
@@ -240,7 +240,7 @@ Section Sound.
     induction fuel as [|f IH]; intros ver depth es Hf Hpos; [lia|].
     cbn [vp]. destruct es as [|e es]; [discriminate|].
     destruct (MAX_PROOF_DEPTH <? depth) eqn:D; [discriminate|].
-    unfold MAX_PROOF_DEPTH in D.
+    unfold MAX_PROOF_DEPTH, max_proof_depth in D.
     assert (forall es', vp f ver (depth + 1) es' <> VErr EFuel) as IH'.
     { intros es'. apply IH; lia. }
     destruct e as [|[k v|bl lb lf]|h|]; try discriminate.
